@@ -204,7 +204,7 @@ def report_loop(chk):
         if isinstance(n, ast.Call) and isinstance(n.func, ast.Attribute) and n.func.attr == "append" \
                 and isinstance(n.func.value, ast.Name) and in_handler(ctxmap.get(id(n), [])):
             lists.add(n.func.value.id)
-    loops = common.for_loops(cfg, lambda st: isinstance(st.iter, ast.Name) and st.iter.id in lists)
+    loops = common.for_loops(cfg, lambda st: any(isinstance(x, ast.Name) and x.id in lists for x in ast.walk(st.iter)))
     return send, cfg, loops, lists
 
 
@@ -244,6 +244,8 @@ def rule_report(chk):
     head = loops[0]
     quiet = common.quiet_exc_edges(ctx, send)
     where = chk.where(send, head.lineno)
+    chk.req(isinstance(head.ast.iter, ast.Name), "C08.report", "send:report-loop-iterates-all-collected-errors", where,
+            good="iterates the collected error list itself", fail="the report loop iterates %s, not every collected error: some failures are never reported" % unparse(head.ast.iter))
     lm = ctx.func("_action", "log_message")
     # one append per caught failure when the guard is false
     gi = guard_info(chk)
